@@ -670,3 +670,113 @@ pub fn pick_idx(i: u16, len: usize) -> usize {
         ((i as usize) * len) >> 16
     }
 }
+
+// ---------------------------------------------------------------------------------------------
+// wire driver: cases are generated by a proptest strategy, executed in concurrent batches against
+// a long-lived rig, confirmed by re-execution and shrunk with a bounded number of re-executions.
+
+pub trait WireProp: Sync {
+    type Case: std::fmt::Debug + Clone + Serialize + DeserializeOwned + Send + Sync;
+    fn sub(&self) -> &'static str;
+    /// Execute the cases concurrently; one outcome per case, in order.
+    fn exec_batch(&self, cases: &[Self::Case]) -> Vec<Outcome>;
+}
+
+pub fn exec_one<P: WireProp>(prop: &P, case: &P::Case) -> Outcome {
+    prop.exec_batch(std::slice::from_ref(case)).pop().unwrap_or_default()
+}
+
+pub fn run_wire<P, S>(ctx: &Ctx, prop: &P, strat: S, total: u64, batch: usize)
+where
+    P: WireProp,
+    S: Strategy<Value = P::Case>,
+{
+    use proptest::strategy::ValueTree;
+    let seed = mix(mix(ctx.seed, hash64(&(ctx.id.as_str(), prop.sub()))), 0x77);
+    let cfg = Config {
+        rng_seed: RngSeed::Fixed(seed),
+        failure_persistence: None,
+        ..Config::default()
+    };
+    let mut runner = TestRunner::new(cfg);
+    let mut done = 0u64;
+    while done < total {
+        let n = batch.min((total - done) as usize);
+        let mut trees = vec![];
+        for _ in 0..n {
+            match strat.new_tree(&mut runner) {
+                Ok(t) => trees.push(t),
+                Err(e) => {
+                    ctx.set_inconclusive(format!("strategy rejected: {}", e));
+                    return;
+                }
+            }
+        }
+        let cases: Vec<P::Case> = trees.iter().map(|t| t.current()).collect();
+        let outs = prop.exec_batch(&cases);
+        done += n as u64;
+        let mut failing: Option<usize> = None;
+        for (i, out) in outs.into_iter().enumerate() {
+            let out = mask_known(ctx, out);
+            ctx.record(prop.sub(), &cases[i], &out);
+            if out.fail.is_some() && failing.is_none() {
+                failing = Some(i);
+                // keep the signature for confirmation
+                trees[i].current();
+                FAIL_SIG.with(|f| *f.borrow_mut() = out.fail.clone());
+            }
+        }
+        if let Some(i) = failing {
+            let first = FAIL_SIG.with(|f| f.borrow_mut().take()).unwrap();
+            // confirm twice, alone
+            let mut confirmed = true;
+            for _ in 0..2 {
+                let o = mask_known(ctx, exec_one(prop, &cases[i]));
+                if o.fail.as_ref().map(|f| &f.sig) != Some(&first.sig) {
+                    confirmed = false;
+                    break;
+                }
+            }
+            if !confirmed {
+                ctx.add_transient();
+                ctx.count_excluded(&format!("{}:transient-not-reproduced:{}", prop.sub(), first.sig), 1);
+                continue;
+            }
+            // bounded shrinking
+            let tree = &mut trees[i];
+            let mut best = cases[i].clone();
+            let mut best_fail = first.clone();
+            let mut budget = 40;
+            while budget > 0 {
+                if !tree.simplify() {
+                    break;
+                }
+                loop {
+                    budget -= 1;
+                    let c = tree.current();
+                    let o = mask_known(ctx, exec_one(prop, &c));
+                    if o.fail.as_ref().map(|f| &f.sig) == Some(&first.sig) {
+                        best = c;
+                        best_fail = o.fail.unwrap();
+                        break;
+                    }
+                    if budget == 0 || !tree.complicate() {
+                        budget = 0;
+                        break;
+                    }
+                }
+            }
+            ctx.violation(prop.sub(), &best_fail, &best);
+            return;
+        }
+    }
+}
+
+thread_local! {
+    static FAIL_SIG: RefCell<Option<Fail>> = const { RefCell::new(None) };
+}
+
+pub fn replay_wire<P: WireProp>(prop: &P, case: &Value) -> Result<Outcome, String> {
+    let c: P::Case = serde_json::from_value(case.clone()).map_err(|e| e.to_string())?;
+    Ok(exec_one(prop, &c))
+}
